@@ -931,6 +931,22 @@ pub fn race_a_sentinels() -> Vec<Program> {
             out.push(p);
         }
     }
+    // S32: the non-atomic access of an atomic is ordered after the *newest* store but not after an
+    // older one from another thread. A stores, then (only a relaxed flag in between) B stores or
+    // RMWs and publishes with release; C acquires and accesses the atomic non-atomically: a race
+    // with A's store - unless the A -> B flag is release/acquire as well (control).
+    for k in [K::WithMut { a: 0 }, K::UnsyncLoad { a: 0 }] {
+        for second in [st(0, 2, Rlx), fadd(0, 16, Rlx), swap(0, 2, Rlx)] {
+            for (fs, fl) in [(Rlx, Rlx), (Rel, Acq)] {
+                let a = vec![st(0, 1, Rlx), st(1, 1, fs)];
+                let b = vec![K::Await { a: 1, mo: fl, want: 1 }.into(), second.clone(), st(2, 1, Rel)];
+                let c: Vec<Op> = vec![K::Await { a: 2, mo: Acq, want: 1 }.into(), k.clone().into()];
+                out.push(with_main("S32-older-store", atomics(3), vec![], vec![a.clone(), b.clone(), c.clone()], vec![], vec![]));
+                // main as the first storer (after the spawns)
+                out.push(with_main("S32-older-store-main", atomics(3), vec![], vec![b, c], a, vec![]));
+            }
+        }
+    }
     out
 }
 
@@ -1423,7 +1439,9 @@ pub fn race_s_wait(tier: &str) -> Vec<Program> {
         base.extend(wait_family(1, 1, 1, 8, true, true, true));
         base.extend(wait_family(2, 1, 0, 8, true, true, false));
     }
-    expand_cells(&base)
+    let mut v = expand_cells(&base);
+    v.extend(race_bare_notify_family());
+    v
 }
 
 pub fn race_s_chan(tier: &str) -> Vec<Program> {
@@ -3000,6 +3018,135 @@ pub fn race_guarded_family() -> Vec<Program> {
                     ch.push(rx);
                     out.push(with_main("RACE-guarded-chan-child", objs, vec![], ch, vec![], vec![]));
                 }
+            }
+        }
+    }
+    out
+}
+
+/// LIT-mp-pub: message passing with every kind of publishing / subscribing operation. The
+/// writer stores the data, optionally fences, and publishes the flag with a store, swap,
+/// fetch_add or successful compare_exchange; the reader reads the flag with a load, a
+/// fetch_add(0) or a failing compare_exchange, optionally fences, and reads the data. `full`:
+/// every ordering and fence kind; otherwise relaxed / release / acquire only.
+pub fn lit_mp_pub(full: bool) -> Vec<Program> {
+    let mut out = vec![];
+    let mut seen = HashSet::new();
+    let pub_mos: &[MO] = if full { &[Rlx, Rel, AcqRel, Sc] } else { &[Rlx, Rel] };
+    let pub_fences: Vec<Option<MO>> = if full { vec![None, Some(Rel), Some(AcqRel), Some(Sc)] } else { vec![None, Some(Rel)] };
+    let sub_fences: Vec<Option<MO>> = if full { vec![None, Some(Acq), Some(AcqRel), Some(Sc)] } else { vec![None, Some(Acq)] };
+    for &pm in pub_mos {
+        for pk in 0..4 {
+            // a plain store cannot be AcqRel
+            if pk == 0 && pm == AcqRel {
+                continue;
+            }
+            let publ: Op = match pk {
+                0 => st(1, 1, pm),
+                1 => swap(1, 1, pm),
+                2 => fadd(1, 1, pm),
+                _ => cas(1, 0, 1, pm, Rlx),
+            };
+            for pf in &pub_fences {
+                let mut w: Vec<Op> = vec![st(0, 1, Rlx)];
+                if let Some(f) = pf {
+                    w.push(fence(*f));
+                }
+                w.push(publ.clone());
+                let sub_ops: Vec<Op> = if full {
+                    vec![ld(1, Rlx), ld(1, Acq), ld(1, Sc), fadd(1, 0, Rlx), fadd(1, 0, Acq), fadd(1, 0, AcqRel), cas(1, 7, 9, Rlx, Rlx), cas(1, 7, 9, Acq, Acq)]
+                } else {
+                    vec![ld(1, Rlx), ld(1, Acq), fadd(1, 0, Rlx), fadd(1, 0, Acq), cas(1, 7, 9, Acq, Acq)]
+                };
+                for so in &sub_ops {
+                    for sf in &sub_fences {
+                        let mut r: Vec<Op> = vec![so.clone()];
+                        if let Some(f) = sf {
+                            r.push(fence(*f));
+                        }
+                        r.push(ld(0, Rlx));
+                        let p = with_main("LIT-mp-pub", atomics(2), vec![], vec![w.clone(), r], vec![], vec![]);
+                        if seen.insert(p.text()) {
+                            out.push(p);
+                        }
+                    }
+                }
+            }
+        }
+    }
+    out
+}
+
+/// DL-enabler: a deadlock that is only reached if a *third* thread's independent operation is
+/// scheduled early. W waits for E (message, notification or unpark), then looks at a flag that
+/// main sets and blocks forever if it is still down; E only provides what W waits for. The
+/// stuck execution needs E to run, and W to wake up, before main's store - although W is not
+/// runnable when main's store is first executed.
+pub fn dl_enabler_family() -> Vec<Program> {
+    let mut out = vec![];
+    let objs = Objs { atomics: vec![0], mutexes: 1, notifies: 1, chans: 2, ..Default::default() };
+    for x in 0..3 {
+        let (wait, provide): (K, K) = match x {
+            0 => (K::Recv { ch: 0 }, K::Send { ch: 0, v: 1 }),
+            1 => (K::NWait { n: 0 }, K::NNotify { n: 0 }),
+            _ => (K::Park, K::Unpark { t: 1 }),
+        };
+        for obs in 0..2 {
+            // W's observation and main's set
+            let (observe, at, set): (Vec<Op>, usize, Vec<Op>) = if obs == 0 {
+                // an RMW as the probe: it reads the newest store, so the SC machine's view is exact
+                // (a SeqCst *load* may still return the initial value, as loom documents)
+                (vec![fadd(0, 0, Sc)], 1, vec![swap(0, 1, Sc)])
+            } else {
+                (vec![K::Lock { m: 0 }.into(), ld(0, Rlx), K::Unlock { m: 0 }.into()], 2, vec![K::Lock { m: 0 }.into(), st(0, 1, Rlx), K::Unlock { m: 0 }.into()])
+            };
+            for stuck in 0..2 {
+                // how W blocks forever: a receive nobody serves, or a park nobody ends
+                let forever: K = if stuck == 0 { K::Recv { ch: 1 } } else { K::Park };
+                if x == 2 && stuck == 1 {
+                    continue; // a second unpark-free park after a consumed token: same as stuck == 1 elsewhere
+                }
+                let mut w: Vec<Op> = vec![wait.clone().into()];
+                w.extend(observe.iter().cloned());
+                w.push(forever.when(at, Res::V(0)));
+                let e: Vec<Op> = vec![provide.clone().into()];
+                out.push(with_main("DL-enabler", objs.clone(), vec![], vec![w.clone(), e.clone()], set.clone(), vec![]));
+                // the enabler as main, the setter as a child
+                if x != 2 {
+                    out.push(with_main("DL-enabler-main", objs.clone(), vec![], vec![w, set.clone()], e, vec![]));
+                }
+            }
+        }
+    }
+    out
+}
+
+/// RACE-bare-notify: a notifier that does not take the mutex writes a cell and notifies; main
+/// joins it, raises the flag under the mutex and notifies again (so the waiter is woken in
+/// every execution); the waiter reads the cell after its wait. Whichever notification ends the
+/// wait - also one that lands between the waiter's enqueueing and its blocking - the bare
+/// notifier's write happens-before the read.
+pub fn race_bare_notify_family() -> Vec<Program> {
+    let mut out = vec![];
+    let objs = Objs { atomics: vec![0], cells: 1, mutexes: 1, condvars: 1, ..Default::default() };
+    for all in [false, true] {
+        let bare: Vec<Op> = vec![wr(0), if all { K::NotifyAll { cv: 0 }.into() } else { K::NotifyOne { cv: 0 }.into() }];
+        for guarded in [false, true] {
+            let mut w: Vec<Op> = vec![K::Lock { m: 0 }.into(), ld(0, Rlx), K::Wait { cv: 0, m: 0 }.when(1, Res::V(0))];
+            w.push(if guarded { K::CellRead { c: 0 }.when(1, Res::V(0)) } else { rd(0) });
+            w.push(K::Unlock { m: 0 }.into());
+            for main_all in [false, true] {
+                let main: Vec<Op> = vec![
+                    K::Spawn { t: 1 }.into(),
+                    K::Spawn { t: 2 }.into(),
+                    K::Join { t: 2 }.into(),
+                    K::Lock { m: 0 }.into(),
+                    st(0, 1, Rlx),
+                    K::Unlock { m: 0 }.into(),
+                    if main_all { K::NotifyAll { cv: 0 }.into() } else { K::NotifyOne { cv: 0 }.into() },
+                    K::Join { t: 1 }.into(),
+                ];
+                out.push(Program { name: "RACE-bare-notify".into(), objs: objs.clone(), threads: vec![main, w.clone(), bare.clone()] });
             }
         }
     }
